@@ -64,7 +64,7 @@ def parseLen (s : String) : Option (Option Nat) :=
   if s == "E" then some none else s.toNat?.map some
 
 /-- a slot → (pointer or nil, object).  Pointers: records with an id use
-`1000 + id`, the others their running index. -/
+`100000 + id`, the others their running index. -/
 def parseSlot (idx : Nat) (s : String) : Option (Slot × Obj Rest) :=
   let dflt : Obj Rest := { isOPT := false, hdr := { rrtype := 1, ttl := 0, rdlength := 0 }, rest := {} }
   if s == "n" then some (none, dflt) else
@@ -74,7 +74,7 @@ def parseSlot (idx : Nat) (s : String) : Option (Slot × Obj Rest) :=
     let ulen ← ul.toNat?
     let kind := (k.take 1).toString
     let idS := (k.drop 1).toString
-    let ptr ← (if idS.isEmpty then some idx else idS.toNat?.map (· + 1000))
+    let ptr ← (if idS.isEmpty then some idx else idS.toNat?.map (· + 100000))
     let mk (isOPT : Bool) (ty : Nat) (adm : Bool) : Obj Rest :=
       { isOPT := isOPT, hdr := { rrtype := ty, ttl := 0, rdlength := 0 }, rest := { plen := plen, adm := adm, ulen := ulen } }
     let o ← (if kind == "a" then some (mk false 1 true)
@@ -123,8 +123,8 @@ def decide (w : List String) : Option (String × Skel) :=
     let compress ← parseBool (← kv "c" c)
     let qs ← parseQs (← kv "q" q)
     let anL ← parseSlots 0 (← kv "an" an)
-    let nsL ← parseSlots 100 (← kv "ns" ns)
-    let exL ← parseSlots 200 (← kv "ex" ex)
+    let nsL ← parseSlots 10000 (← kv "ns" ns)
+    let exL ← parseSlots 20000 (← kv "ex" ex)
     let N ← (← kv "N" n).toNat?
     if N ≠ packBufferSize then none else
     let heap := heapOf (anL ++ nsL ++ exL)
